@@ -189,7 +189,7 @@ def _object(case, ctx):
             tstart=float(rng.uniform(40000, 70000)), nsamples=0, nifs=int(rng.integers(1, 5)),
             coord=SkyCoord(ra_h * u.hourangle, dec_d * u.deg), azimuth=Angle(_azimuth(rng, ctx) * u.deg),
             zenith=Angle(float(rng.uniform(0, 90)) * u.deg), telescope=str(rng.choice(tels)), backend=str(rng.choice(backs)),
-            source=_rand_str(rng, 1, 30 if rng.random() < 0.8 else 120), frame=frame, ibeam=int(rng.integers(0, 14)), nbeams=int(rng.integers(0, 14)),
+            source=_rand_str(rng, 1, 30 if rng.random() < 0.8 else 120) if j % 11 != 7 else "", frame=frame, ibeam=int(rng.integers(0, 14)), nbeams=int(rng.integers(0, 14)),
             dm=float(rng.choice([0.0, float(rng.uniform(0, 3000))])), rawdatafile=_rand_str(rng, 0, 40 if rng.random() < 0.7 else 300),
         )
         urng = np.random.default_rng([case["seed"], j, 71])
